@@ -33,10 +33,21 @@ def _params(fn: ast.FunctionDef, drop_first: bool):
     a = fn.args
     if a.vararg is not None:
         return None  # positional spill: the position of a keyword matters less clearly - leave such calls alone
-    names = [x.arg for x in a.posonlyargs + a.args]
+    params = a.posonlyargs + a.args
+    names = _Sig(x.arg for x in params)
+    dflt = dict(zip([x.arg for x in params][len(params) - len(a.defaults):], a.defaults)) if a.defaults else {}
+    names.defaults = {k: v for k, v in dflt.items() if isinstance(v, ast.Constant)}
     if drop_first and names:
-        names = names[1:]
+        d = names.defaults
+        names = _Sig(names[1:])
+        names.defaults = d
     return names
+
+
+class _Sig(list):
+    """Parameter names in order; .defaults: {name: constant default}."""
+
+    defaults: dict = {}
 
 
 def canonicalise(repo, modules):
@@ -175,9 +186,16 @@ def canonicalise(repo, modules):
             return
         by_name = {k.arg: k for k in call.keywords}
         pos = list(call.args)
-        while len(pos) < len(sig) and sig[len(pos)] in by_name:
-            k = by_name.pop(sig[len(pos)])
-            pos.append(k.value)
+        defaults = getattr(sig, "defaults", {}) or {}
+        while len(pos) < len(sig):
+            name = sig[len(pos)]
+            if name in by_name:
+                pos.append(by_name.pop(name).value)
+            elif name in defaults and any(n in by_name for n in sig[len(pos) + 1:]):
+                # a later parameter is given by keyword: the skipped one takes its constant default (f(a, c=1) == f(a, None, 1))
+                pos.append(ast.copy_location(ast.Constant(value=defaults[name].value), call))
+            else:
+                break
         call.args = pos
         order = {n: i for i, n in enumerate(sig)}
         call.keywords = sorted(by_name.values(), key=lambda k: (order.get(k.arg, len(sig)), k.arg))
